@@ -429,6 +429,9 @@ class RejectsMixin:
                 return place(own_int.shift(1, arrange=bad))
             return place(own_int.sum(partition_by=bad))
         if rule == "summarize_plain_col":
+            if step["nest"] == "case_cond":
+                # a literal column is a plain column, too (same value in every row, yet not aggregated)
+                return t >> pdt.mutate(k__=5) >> pdt.summarize(**{new: pdt.C.k__})
             return t >> pdt.summarize(**{new: nested(c_int)})
         if rule == "summarize_agg_partition_by":
             bad = c_int.sum(partition_by=c_int2)
